@@ -1,4 +1,4 @@
-//@unit c04_pager props=C04,C02 widths=u32
+//@unit c04_pager props=C04,C02,C16 widths=u32
 //@use prelude/head.rs
 //@use prelude/vob.rs
 //@use prelude/grammar.rs
@@ -316,7 +316,7 @@ pub struct Built { pub core_states: Vec<Itemset>, pub closed_states: Vec<Option<
 fn pager_stategraph(grm: &YaccGrammar) -> (r: Built)
     requires grm.wf(),
     ensures
-        graph_inv(grm, r.core_states@, r.closed_states@, r.edges@), // OBL: C04.pager.every_edge_leads_to_a_state_subsuming_the_transition C02.pager.every_edge_leads_to_a_state_subsuming_the_transition
+        graph_inv(grm, r.core_states@, r.closed_states@, r.edges@), // OBL: C04.pager.every_edge_leads_to_a_state_subsuming_the_transition C02.pager.every_edge_leads_to_a_state_subsuming_the_transition C16.pager.closed_state_is_the_closure_of_its_core_state
         forall|s: int| 0 <= s < r.closed_states@.len() ==> (#[trigger] r.closed_states@[s]) is Some, // OBL: C04.pager.no_state_left_unprocessed C02.pager.no_state_left_unprocessed
 {
     //@probe
@@ -343,7 +343,7 @@ fn pager_stategraph(grm: &YaccGrammar) -> (r: Built)
     //@rule n=1 `let mut todo_off = 0;` => `let mut todo_off: usize = 0;`
     //@rule n=1 `^(\s*)while todo > 0 \{$` =>>
     while todo > 0
-        invariant grm.wf(), graph_inv(grm, core_states@, closed_states@, edges@), todo == pending(closed_states@), // OBL: C04.pager.todo_counts_the_unprocessed_states C02.pager.todo_counts_the_unprocessed_states
+        invariant grm.wf(), graph_inv(grm, core_states@, closed_states@, edges@), todo == pending(closed_states@), // OBL: C04.pager.todo_counts_the_unprocessed_states C02.pager.todo_counts_the_unprocessed_states C16.pager.todo_counts_the_unprocessed_states
             new_states@.len() == 0, seen_rules@.len() == grm.nrules(), seen_tokens@.len() == grm.ntok(),
             cnd_rule_weaklies@.len() == grm.nrules(), cnd_token_weaklies@.len() == grm.ntok() + 1,
             cnds_ok(cnd_rule_weaklies@, core_states@.len() as int), cnds_ok(cnd_token_weaklies@, core_states@.len() as int),
